@@ -104,7 +104,16 @@ PatMatch(p, cs) ==
     [] p = "p_2"  -> Len(cs) = 2
     [] p = "p_pct" -> \A i \in DOMAIN cs : cs[i] \in {"a", "b"}
     [] p = "p_esc" -> cs # <<>> /\ \A i \in DOMAIN cs : cs[i] = "a"
+    [] p = "p_qt"  -> cs = <<"qt", "a", "qt">>
+    [] p = "p_bt"  -> cs = <<"a", "bt", "b">>
+    [] p = "p_cls" -> \E n \in 1..Len(cs) : /\ \A i \in 1..n : cs[i] \in {"a", "b", "d1", "us"}
+                                           /\ \/ n = Len(cs)
+                                              \/ n + 1 = Len(cs) /\ cs[n + 1] \in {"sp", "nl"}
     [] OTHER -> TRUE
+\* Patterns whose TEXT is hostile to the emitter (a double quote, a backtick, backslash classes): same meaning
+\*   "p_qt"  ^"a"$      "p_bt"  ^a`b$      "p_cls" ^\w+\s?$
+\* judged on hand-picked strings over the wider character set (HostStrings in MC_C06).
+HostPatIds == {"p_qt", "p_bt", "p_cls"}
 
 \* string formats the tool maps to dedicated Go types
 Formats == {"date", "time", "date-time", "ipv4", "ipv6"}
